@@ -93,6 +93,9 @@ CopyThenChange == {
   Plain(<<"put", "$z = $x", "then", "nest", "--explode", "--values", "--across-fields", "-f", "z", "--nested-fs", ";">>),
   Plain(<<"put", "if (is_string($x) || is_present($x)) {$z = $x; $z[1] = \"q\"}">>),
   Plain(<<"put", "$z = typeof($x); $w = $x; $w[1] = $z">>),
+  \* an indexed assignment INTO another field that is empty on input (every record has such a field, e): the empty texts of
+  \* the stream are not one shared value
+  Plain(<<"put", "$e[1] = \"t\"">>), Plain(<<"put", "$e[\"k\"] = 1">>), Plain(<<"put", "NR == 2 {$e[1][2] = 3}">>),
   Plain(<<"put", "-q", "tee > \"tee2.out\", $*; $x_copy = $x; emit mapsum($*, {\"z\": 1})">>) }
 
 (***************************************************************************)
